@@ -72,6 +72,8 @@ Q_ZEROIZING_PUBLIC = ('wrap-public-vector-in-zeroizing', 'quiet', [(RP, 'let mut
 
 CORPUS = {
     'C01': [
+        ('last-masking-base-point-never-derived', 'fire', [('src/ristretto.rs', '        for (i, point) in (ExtensionDegree::MINIMUM..).zip(arr.iter_mut()) {', '        for (i, point) in (ExtensionDegree::MINIMUM..ExtensionDegree::MAXIMUM).zip(arr.iter_mut()) {')], 'R-C01-7'),
+        ('masking-base-point-range-closed-at-count', 'quiet', [('src/ristretto.rs', '        for (i, point) in (ExtensionDegree::MINIMUM..).zip(arr.iter_mut()) {', '        for (i, point) in (ExtensionDegree::MINIMUM..=ExtensionDegree::MAXIMUM).zip(arr.iter_mut()) {')], None),
         ('doubling-recurrence-linear', 'fire', [(RP, 'd_sum_temp_z = d_sum_temp_z * d_sum_temp_z;', 'd_sum_temp_z = d_sum_temp_z * z_square;')], 'R-C01-1'),
         ('padding-from-first-statement', 'fire', [(RP, '''            max_statement.generators.max_aggregation_factor(),
         )?;''', '''            first_statement.generators.max_aggregation_factor(),
@@ -154,6 +156,9 @@ CORPUS = {
         Q_RENAME_WEIGHT, Q_ERRMSG,
     ],
     'C06': [
+        ('witness-degrees-compared-in-disjoint-pairs', 'fire', [('src/range_witness.rs', '''        for item in openings.iter().skip(1) {
+            if extension_degree != item.r_len()? {''', '''        for item in openings.chunks_exact(2) {
+            if item[0].r_len()? != item[1].r_len()? {''')], 'R-C06-4'),
         ('value-fit-accepts-one-more-bit', 'fire', [(RP, '            if bit_length < 64 && opening.v >> bit_length > 0 {', '            if bit_length < 64 && opening.v >> bit_length > 1 {')], 'R-C06-1'),
         ('fit-guard-32', 'fire', [(RP, 'if bit_length < 64 && opening.v >> bit_length > 0 {', 'if bit_length < 32 && opening.v >> bit_length > 0 {')], 'R-C06-1'),
         ('opening-check-first-only', 'fire', [(RP, '        for (opening, commitment) in witness.openings.iter().zip(statement.commitments.iter()) {', '        for (opening, commitment) in witness.openings.iter().zip(statement.commitments.iter()).take(1) {')], 'R-C06'),
@@ -166,6 +171,7 @@ CORPUS = {
         ('range-guard-from-second-statement', 'fire', [(RP, '''        for (i, statement) in statements.iter().enumerate() {
             for value''', '''        for (i, statement) in statements.iter().enumerate().skip(1) {
             for value''')], 'R-C07-4'),
+        ('promise-shifted-by-the-vector-capacity', 'fire', [(RP, '                if bit_length < 64 && value >> bit_length > 0 {', '                if max_mn < 64 && value >> max_mn > 0 {')], 'R-C07-4'),
         ('promise-not-absorbed', 'fire', [(TR, '                transcript.append_u64(b"vi - minimum_value", *minimum_value);', '                transcript.append_u64(b"vi - minimum_value", 0);')], 'R-C07-1'),
         Q_EXTRACT_PROMISE_LOOP, Q_RENAME_WEIGHT,
     ],
@@ -204,6 +210,20 @@ CORPUS = {
         Q_ERRMSG, Q_STD_LE_BYTES,
     ],
     'C12': [
+        ('padding-counts-one-block-per-level', 'fire', [(GEN, '''    padded_capacity
+        .checked_sub(actual_capacity)
+        .ok_or(ProofError::SizeOverflow)''', '''    let _ = padded_capacity;
+    actual_capacity
+        .checked_mul(max_aggregation_factor.checked_sub(aggregation_factor).ok_or(ProofError::SizeOverflow)?.min(1))
+        .ok_or(ProofError::SizeOverflow)''')], 'R-C12-2'),
+        ('padding-as-a-product-of-the-difference', 'quiet', [(GEN, '''    padded_capacity
+        .checked_sub(actual_capacity)
+        .ok_or(ProofError::SizeOverflow)''', '''    let _ = (padded_capacity, actual_capacity);
+    2usize
+        .checked_mul(bit_length)
+        .ok_or(ProofError::SizeOverflow)?
+        .checked_mul(max_aggregation_factor.checked_sub(aggregation_factor).ok_or(ProofError::SizeOverflow)?)
+        .ok_or(ProofError::SizeOverflow)''')], None),
         ('label-from-capacity', 'fire', [(BG, '            LittleEndian::write_u32(&mut label[1..5], party_index);', '            LittleEndian::write_u32(&mut label[1..5], party_capacity as u32);')], 'R-C12-1'),
         ('padding-from-first-statement', 'fire', [(RP, '''            max_statement.generators.max_aggregation_factor(),
         )?;''', '''            first_statement.generators.max_aggregation_factor(),
@@ -233,6 +253,11 @@ CORPUS = {
         Q_EXTRACT_PROMISE_LOOP, Q_ERRMSG,
     ],
     'C15': [
+        ('visitor-caps-the-input-length', 'fire', [(RP, '''                RangeProof::from_bytes(v).map_err(|_| serde::de::Error::custom("deserialization error"))''', '''                if v.len() > 801 {
+                    return Err(serde::de::Error::custom("deserialization error"));
+                }
+                RangeProof::from_bytes(v).map_err(|_| serde::de::Error::custom("deserialization error"))''')], 'R-C15-4'),
+        ('visitor-drops-a-trailing-byte', 'fire', [(RP, '''                RangeProof::from_bytes(v).map_err(|_| serde::de::Error::custom("deserialization error"))''', '''                RangeProof::from_bytes(&v[..v.len().saturating_sub(1)]).map_err(|_| serde::de::Error::custom("deserialization error"))''')], 'R-C15-4'),
         ('remainder-test-is-not-emptiness', 'fire', [(RP, '        if tuples.into_buffer().len() > 0 || !chunks.remainder().is_empty() {', '        if tuples.into_buffer().len() > 0 || !chunks.remainder().len() == 1 {')], 'R-C15-3'),
         ('encoder-swaps-r1-s1', 'fire', [(RP, '''        buf.extend_from_slice(self.r1.as_bytes());
         buf.extend_from_slice(self.s1.as_bytes());''', '''        buf.extend_from_slice(self.s1.as_bytes());
@@ -252,6 +277,7 @@ CORPUS = {
         ('unwrap-decompress', 'fire', [(RP, '''        self.a.decompress().ok_or_else(|| {
             ProofError::InvalidArgument("Member 'a' was not the canonical encoding of a point".to_string())
         })''', '        Ok(self.a.decompress().unwrap())')], 'R-C16-1'),
+        ('empty-promise-vector-accepted', 'fire', [('src/range_statement.rs', '        if minimum_value_promises.len() != commitments.len() {', '        if !minimum_value_promises.is_empty() && minimum_value_promises.len() != commitments.len() {')], 'R-C16-5'),
         ('unchecked-dynamic-length', 'fire', [(RP, '            msm_dynamic_len = msm_dynamic_len.checked_add(3).ok_or(ProofError::SizeOverflow)?;', '            msm_dynamic_len = msm_dynamic_len + 3;')], 'R-C16-1'),
         Q_ERRMSG, Q_RENAME_WEIGHT,
     ],
@@ -292,6 +318,7 @@ CORPUS = {
         Q_EXTRACT_PROMISE_LOOP, Q_ERRMSG, Q_STD_LE_BYTES,
     ],
     'C20': [
+        ('opening-shrinks-the-callers-vector', 'fire', [('src/commitment_opening.rs', '    pub fn new(v: u64, r: Vec<Scalar>) -> Self {', '    pub fn new(v: u64, mut r: Vec<Scalar>) -> Self {\n        r.shrink_to_fit();')], 'R-C20-3'),
         ('seed-copy-in-temporary-vec', 'fire', [(GEN, 'key.extend_from_slice(seed_nonce.as_bytes()); // Fixed length encoding', 'key.append(&mut seed_nonce.to_bytes().to_vec()); // Fixed length encoding')], 'R-C20-2'),
         ('plain-vec-for-bits', 'fire', [(RP, 'let mut a_li = Zeroizing::new(Vec::with_capacity(full_length));', 'let mut a_li = Vec::with_capacity(full_length);'),
                                        (RP, '''            a_li = Zeroizing::new(
